@@ -84,6 +84,48 @@ def gen_manyvars(rng, cid):
     return p
 
 
+def gen_nanop(rng, cid):
+    """every opcode next to an operand that is NaN on part of the space (sqrt / log / acos / nth_root / 0/0 of an
+    axis): a kernel that writes nothing for a NaN operand (or for an out-of-domain one) leaves whatever an earlier
+    query stored in that slot"""
+    p = exprlib.Prog(cid)
+    ax = [p.emit("x", "axis"), p.emit("y", "axis"), p.emit("z", "axis")]
+    a = rng.randrange(3)
+    b = rng.choice([k for k in range(3) if k != a])
+    k = rng.randrange(5)
+    if k == 0:
+        src = p.emit(f"un OP_SQRT {ax[a]}", "tree")
+    elif k == 1:
+        src = p.emit(f"un OP_LOG {ax[a]}", "tree")
+    elif k == 2:
+        two = p.emit("const 40000000", "const")
+        src = p.emit(f"un {rng.choice(['OP_ACOS', 'OP_ASIN'])} {p.emit(f'bin OP_MUL {ax[a]} {two}', 'tree')}", "tree")
+    elif k == 3:
+        src = p.emit(f"bin OP_NTH_ROOT {ax[a]} {p.emit('const 40000000', 'const')}", "tree")
+    else:
+        m = p.emit(f"bin OP_MAX {ax[a]} {p.emit('const 00000000', 'const')}", "tree")      # 0 for x <= 0
+        src = p.emit(f"bin OP_DIV {m} {m}", "tree")                                        # 0/0 there
+    other = ax[b]
+    if rng.random() < 0.3:
+        other = p.emit(f"const {f2h(rng.choice([0.0, 1.0, -1.0, 0.5, 2.0]))}", "const")
+    op = rng.choice(exprlib.UNARY + exprlib.BINARY + exprlib.BINARY)
+    if op in exprlib.UNARY:
+        root = p.emit(f"un {op} {src}", "tree")
+    elif op in ("OP_POW", "OP_NTH_ROOT"):
+        root = p.emit(f"bin {op} {src} {p.emit('const ' + f2h(float(rng.choice([1, 2, 3]))), 'const')}", "tree")
+    else:
+        l, r = (src, other) if rng.random() < 0.5 else (other, src)
+        root = p.emit(f"bin {op} {l} {r}", "tree")
+    for _ in range(rng.randint(0, 2)):
+        o2 = rng.choice(["OP_ADD", "OP_MUL", "OP_MIN", "OP_MAX", "OP_SUB", "OP_COMPARE", "OP_NANFILL", "OP_ATAN2", "OP_MOD"])
+        q = ax[rng.randrange(3)]
+        l, r = (root, q) if rng.random() < 0.5 else (q, root)
+        root = p.emit(f"bin {o2} {l} {r}", "tree")
+    p.root = root
+    p.nvars = 0
+    return p
+
+
 def gen_history(rng, p, nq):
     toks = []
     kinds = set()
@@ -151,8 +193,13 @@ def run(replay=None):
         if r < 0.08:
             p = gen_manyvars(ck.rng, f"h{k}")
         elif r < 0.2:
+            p = gen_nanop(ck.rng, f"h{k}")
+        elif r < 0.26:
+            # every opcode, domain errors and all (answers are compared bit for bit, NaN included)
+            p = exprlib.gen_program(ck.rng, f"h{k}", ck.rng.randint(4, 14), safe=False, var_p=0.05, apply_p=0.0)
+        elif r < 0.36:
             p = gen_tie_product(ck.rng, f"h{k}")
-        elif r < 0.55:
+        elif r < 0.62:
             p = gen_csg(ck.rng, f"h{k}", ck.rng.randint(2, 6))
             # wrap some CSG results in sqrt / abs / square to reach kernels that read their own result row
             if ck.rng.random() < 0.5:
@@ -172,7 +219,7 @@ def run(replay=None):
         p.emit(f"history {p.root} {p.nvars} {init} {hist}".replace("  ", " "))
         progs.append(p)
     hout, hskip = common.run_cases_sharded(os.path.join(common.BUILD, "cxx", "bin", "expr"), [p.text() for p in progs],
-                                          timeout=600 if quick else 3000, single_timeout=60)
+                                          timeout=45 if quick else 1500, single_timeout=15)
     H = parse_out(hout)
     skipped = set(t.split()[1] for t in hskip)
     stats = dict(histories=0, queries=0, skipped_timeouts=len(skipped))
@@ -206,7 +253,7 @@ def run(replay=None):
     ck.coverage.update(stats)
     ck.coverage["evaluations"] = stats["queries"]
     ck.coverage["distinct_nontrivial"] = nontriv
-    ck.coverage["rule"] = ("CSG (optionally wrapped in sqrt), tie x axis products, sums of variable x position terms over 4..9 variables, and random "
+    ck.coverage["rule"] = ("CSG (optionally wrapped in sqrt), tie x axis products, every opcode beside a partly-NaN operand, all-opcode random expressions, sums of variable x position terms over 4..9 variables, and random "
                            "expressions with free variables x histories of 5..30 (thorough: 120) "
                            "queries; batch sizes {1,2,3,15,16,17,31,32,33,64,255,256}; points incl. exact min/max ties; "
                            "non-trivial = >= 3 kinds of query and at least one push or variable update in the history")
